@@ -107,6 +107,7 @@ func genC02(seed int64, tier string) *Scenario {
 			}
 			if rng.Intn(4) == 0 {
 				holdOp(rng, &o, []string{"deploy.healthy", "router.install", "deploy.beforeDrain", "drain.begin", "drain.marked", "drain.end", "deploy.done", "cmd.ret"})
+				lockHoldOp(rng, &o)
 			}
 			o.Sim = simDirective(time.Duration(rng.Intn(4))*oddMs(40, rng.Intn(400)), rng.Intn(60), "")
 			if rollout && rng.Intn(2) == 0 {
